@@ -98,14 +98,19 @@ static int run(void)
   int first = TK_n;
   tok_sym(PRES & 1);
   tok_const("49", 2, 49, "a", 1, DROPV != 1); tok_const("56", 2, 56, "b", 1, DROPV != 2); tok_const("34", 2, 34, "1", 1, DROPV != 3); tok_const("52", 2, 52, "t", 1, DROPV != 4);
-#if NG > 0
+#if NG > 0 && !defined(GLAST)
   int gtok = TK_n;
   { uint8_t gc = (uint8_t)('0' + GSEL); uint8_t t[5] = { '3', '8', '4', 0, 0 }, v[7] = { gc, 0 }; TK_add(1, 384, t, 3, v, 1, 6); }     /* count digit: constant inside this run (case split in main) */
   for (int g = 0; g < NG; g++) tok_sym((GPRES >> g) & 1);
-#else
+#elif NG == 0
   tok_sym((PRES >> 1) & 1);
 #endif
   tok_const("98", 2, 98, "0", 1, DROPV != 5); tok_const("108", 3, 108, "3", 1, DROPV != 6);
+#if NG > 0 && defined(GLAST)     /* the group is the last field of the body: 98=0|108=3|384=n|G0..|[X2..]10=ccc| */
+  int gtok = TK_n;
+  { uint8_t gc = (uint8_t)('0' + GSEL); uint8_t t[5] = { '3', '8', '4', 0, 0 }, v[7] = { gc, 0 }; TK_add(1, 384, t, 3, v, 1, 6); }
+  for (int g = 0; g < NG; g++) tok_sym((GPRES >> g) & 1);
+#endif
   for (int i = 2; i < NX; i++) tok_sym((PRES >> i) & 1);
   int last = TK_n;                                   /* tokens first..last-1 follow the preamble */
   uint8_t c0 = nondet_u8(), c1 = nondet_u8(), c2 = nondet_u8(); VF_ASSUME(c0 >= '0' && c0 <= '9' && c1 >= '0' && c1 <= '9' && c2 >= '0' && c2 <= '9');
@@ -204,6 +209,14 @@ static int run(void)
       for (int q = 0; q < 6; q++) if (q < TK_vlen[k] && r->val[q] != TK_val[k][q]) same = 0;
       if (j > 0 && W_rec[j - 1].comp == r->comp && W_rec[j - 1].pos >= r->pos) same = 0;
     }
+#if NG > 0
+    { /* a group element that received a field must end up in its group: an element decoded and then discarded loses its fields */
+      unsigned used = 0; int nused = 0;
+      for (int j = 0; j < RMAX; j++) if (j < W_nrec && W_rec[j].comp >= C_EL0 && W_rec[j].comp < C_EL0 + NEL) used |= 1u << (W_rec[j].comp - C_EL0);
+      for (int e = 0; e < NEL; e++) if ((used >> e) & 1) nused++;
+      if (conform) VF_ASSERT(W_el_closed == nused, "C04/C05: every group element that received a field is appended to its group (no decoded field is lost)");
+    }
+#endif
 #if PERM == 0
     VF_ASSERT(nochk || cs_ok, "C04: accepted only with a correct checksum");
     VF_ASSERT(conform, "C04: accepted only if every tag is legal where it appears, nothing repeats, group elements start with field #1 and all mandatory fields are present");
@@ -245,6 +258,9 @@ static int slot_on(int s)
 static uint32_t slot_mask(int s)
 {
 #if NG > 0
+#ifdef GMENUMASK0
+  if (s == 1) return GMENUMASK0;          /* the first group slot may have its own (smaller) menu */
+#endif
   if (s >= 1 && s <= NG) return GMENUMASK;
 #endif
   return MENUMASK;
